@@ -79,6 +79,32 @@ def drive(ctx, fmt, n_cases, precisions, hostile=True, fixture_precisions=(), ke
                               {"case": i})
             finally:
                 ctx.case_wit = None
+        if i % 4 == 2 and fmt == "xml":
+            # two writers of different decimal precision exist side by side; the coarse one writes first, then the fine one
+            # (no writer is constructed in between): each file has the precision of ITS writer
+            ctx.case_wit = {"case": i, "fmt": fmt, "route": "coarse-writer-writes-first"}
+            try:
+                from commonroad.common.file_writer import CommonRoadFileWriter, OverwriteExistingFile
+                from commonroad.common.util import FileFormat
+                import contextlib
+                import io as _io
+                kw_ = dict(author=sc.author or "a", affiliation=sc.affiliation or "b", source=sc.source or "c", tags=sc.tags,
+                           file_format=FileFormat.XML)
+                fine = CommonRoadFileWriter(sc, pps, decimal_precision=max(max(ps), 8), **kw_)
+                coarse = CommonRoadFileWriter(sc, pps, decimal_precision=1, **kw_)
+                ctx.feature("coarse-writer-writes-first")
+                for w_ in (coarse, fine, coarse):
+                    pth = io.tmpfile(".xml")
+                    ctx.evaluation()
+                    with contextlib.redirect_stdout(_io.StringIO()):
+                        w_.write_to_file(pth, OverwriteExistingFile.ALWAYS)
+                    if os.path.exists(pth):
+                        os.remove(pth)
+            except Exception as e:  # noqa
+                ctx.violation("%s/write/raises-%s/coarse-writer-writes-first" % (prop, type(e).__name__), repr(e)[:300],
+                              {"case": i})
+            finally:
+                ctx.case_wit = None
         from vf.oracle import structure as S
         snap = S.snap_scenario(sc, header=False)
         ctx.fingerprint([fmt, sorted(snap["lanelets"]), sorted((k, v["role"]) for k, v in snap["obstacles"].items()),
